@@ -25,7 +25,7 @@ from sim.props.ahbcommon import (
     second_validation,
     shrink_validation,
 )
-from sim.props.common import LIVENESS_ERRORS, base_verdict, clone, fail, liveness_verdict, strip_msg
+from sim.props.common import LIVENESS_ERRORS, base_verdict, clone, fail, is_exception, liveness_verdict, strip_msg
 from sim.runner import pristine
 from sim.world import run_requests
 
@@ -274,7 +274,7 @@ def _judge(request, outcome, reference, reasons, verdict):
     }
     if "ok" not in reference:
         # the 'Kann' AHB itself ends in an exception (UNKNOWN on a MUSS node): the faulty AHB must end the same way
-        if outcome.get("exc") != reference.get("exc"):
+        if "exc" not in outcome or not is_exception(outcome, reference.get("exc")):
             fail(verdict, "outcome-differs-from-kann-replacement",
                  f"planted {planted}: outcome {dumps(outcome)[:400]}, with 'Kann' instead: {dumps(reference)[:400]}")
         return
@@ -309,7 +309,7 @@ def _judge(request, outcome, reference, reasons, verdict):
                 fail(verdict, f"planted-node-not-optional:{kinds[discriminator]}",
                      f"node {discriminator} with invalid expression {plant['expr']!r} is reported {status}")
             elif not result.get("hints") or (
-                known_reason[plant["expr"]] is not None and result["hints"] != known_reason[plant["expr"]]
+                known_reason[plant["expr"]] is not None and known_reason[plant["expr"]] not in result["hints"]
             ):
                 fail(verdict, f"planted-node-without-reason:{kinds[discriminator]}",
                      f"node {discriminator} with invalid expression {plant['expr']!r}: hints {result.get('hints')!r}, "
